@@ -159,6 +159,24 @@ def dumpWith {α} (A : Arith α) (strV : α → String) (c : Case) : String :=
       let ecids := (c.cands.filter (fun (_, _, wd, _) => !wd)).map (·.1)
       hexOf (dump strV (fun cid => s!"C{cid}") (methodOf c.rule) ecids s'.acts.reverse)
 
+def reportWith {α} (A : Arith α) (strV : α → String) (c : Case) (msgs : List String) : String :=
+  match runRuleSt' A c (withAddLogs (initState A c)) with
+  | none => "FUEL"
+  | some s =>
+    match s.crash with
+    | some k => "CRASH " ++ k
+    | none =>
+      let s' := s.logAct A "end" "Count Complete" []
+      hexOf (reportActions A strV (fun cid => s!"C{cid}") (methodOf c.rule) (c.cands.map (·.1)) c.nballots msgs s'.acts.reverse)
+
+def runReport (display : Nat) (c : Case) (msgs : List String) : String :=
+  match c.arith with
+  | "fixed" => reportWith (fixedArith c.p) (strFixed c.p display) c msgs
+  | "integer" => reportWith (fixedArith 0) (strFixed 0 display) c msgs
+  | "guarded" => reportWith (guardedArith c.p c.g) (strGuarded c.p c.g display) c msgs
+  | "rational" => reportWith rationalArith (strRational display) c msgs
+  | a => "UNKNOWN-ARITH " ++ a
+
 def runDump (display : Nat) (c : Case) : String :=
   match c.arith with
   | "fixed" => dumpWith (fixedArith c.p) (strFixed c.p display) c
@@ -354,6 +372,10 @@ partial def loopIO (h : IO.FS.Stream) : IO Unit := do
   | ["HEADERKEYS"] => IO.println (",".intercalate Droop.headerKeysModel)
   | ["UNITABLES"] =>
     IO.println s!"S:{showNats pySpaces} D:{",".intercalate (ndZeros.flatMap (fun z => (List.range 10).map (fun i => s!"{z+i}={i}")))} L:{showNats pyLineBreaks}"
+  | "REPORT" :: d :: rest =>
+    match d.toNat?, parseCase rest, implS with
+    | some d, some c, some ms => IO.println (runReport d c ((ms.trimAscii.toString.splitOn ",").filterMap unhex))
+    | _, _, _ => IO.println "BAD-INPUT"
   | "DUMP" :: d :: rest =>
     match d.toNat?, parseCase rest with
     | some d, some c => IO.println (runDump d c)
